@@ -53,7 +53,14 @@ class Ref:
             llo, lhi = self.ev(e['lhs'], x, depth)
             lo, hi = set(), set()
             for y in lhi:
-                a, b = self.ev(e['rhs'], y, depth)
+                try:
+                    a, b = self.ev(e['rhs'], y, depth)
+                except LookupError:
+                    # only the start asset of a closure (in the upper bound alone) can lack a variable of the static
+                    # type; nothing is reached through it
+                    if y in llo:
+                        raise
+                    continue
                 hi |= b
                 if y in llo:
                     lo |= a
